@@ -37,6 +37,20 @@ EXTRA_TRUSTED = ["contextlib.contextmanager / generator semantics (the model's f
 ASSUMPTIONS = ["_config._run_validators is only written through the public API during a sequence "
                "(the harness sets the initial value directly)"]
 
+
+
+def pre_build():
+    # Gen/Switch.v imports the value types of Gen/Decide.v; both are regenerated from the source
+    from . import translate, translate_switch
+    translate.regenerate_all()
+    translate_switch.regenerate()
+
+
+def translated_tie():
+    from . import translate_switch
+    return translate_switch.regenerate(), "theories/C20/SwitchTie.vo"
+
+
 _log = []
 
 
